@@ -656,6 +656,8 @@ func cmdCheck(id, tier string) int {
 		key := lv.v.Oracle
 		if kf != nil {
 			key = "known:" + kf.ID
+		} else if c := lv.v.Features["group"]; c != "" {
+			key += "/" + c
 		} else if c := lv.v.Features["class"]; c != "" {
 			key += "/" + c
 		}
@@ -683,8 +685,8 @@ func cmdCheck(id, tier string) int {
 		}
 		tr := g.first.v.Trace
 		if tr == nil {
-			fmt.Fprintf(os.Stderr, "violation %s without a trace\n", key)
-			return exitInfra
+			// the worker dropped the trace (many violations): regenerate the run
+			tr = genTrace(p, tier, seed, g.first.idx)
 		}
 		tr.Level = g.first.level
 		if strings.HasSuffix(tr.Oracle, ".level_diff") {
@@ -720,7 +722,7 @@ func cmdCheck(id, tier string) int {
 		}
 		sort.Ints(ls)
 		fmt.Printf("VIOLATION property=%s replay=%s\n", id, replayPath)
-		fmt.Printf("  oracle=%s occurrences=%d levels=%v\n", g.first.v.Oracle, g.count, ls)
+		fmt.Printf("  oracle=%s group=%s occurrences=%d levels=%v\n", g.first.v.Oracle, key, g.count, ls)
 		for _, line := range strings.Split(strings.TrimSpace(outp), "\n")[1:] {
 			if len(line) > 400 {
 				line = line[:400]
